@@ -15,6 +15,7 @@ import common as C
 import gen_formulas as GF
 
 getcontext().prec = 60
+STATIC = ["Model/Pk.vo"]
 IMPORTS = "From SSP Require Import Model.Pk."
 
 
